@@ -8,6 +8,9 @@ Workload (a pure function of seed and tier):
     referenced by foreign keys of managed tables (which are left alone, altered, rebuilt or created), referenced
     only by a database-side foreign key that the plan has to drop; managed tables are added, dropped, altered
     (ADD COLUMN / CREATE INDEX / DROP INDEX) or rebuilt (column type change).
+  * the patterns are supplied as --exclude flags, as the env block's `exclude = [...]` list of atlas.hcl (2+ patterns, the last one
+    protecting a table that only the database has; optionally behind a first pattern that matches nothing) or both (flags win, the
+    env list is a prefix of the flag list); before the apply, `schema inspect` and `schema diff` run with the same patterns.
   * the same with patterns `t.column` / `t.index[type=index]` that protect a column and an index of a managed table.
   * `atlas schema apply --env e --auto-approve` with an atlas.hcl holding `diff { skip { drop_table = true … } }`
     (in the env block or as a global block) over (current, desired) pairs described as atomic changes.
@@ -30,7 +33,8 @@ sys.path.insert(0, os.path.dirname(os.path.abspath(__file__)))
 import vlib  # noqa: E402
 import c19_lib as L  # noqa: E402
 
-RULE = ("`schema apply --exclude P --auto-approve` on SQLite files: excluded tables' sqlite_master rows and rows identical before/after "
+RULE = ("patterns P given as --exclude flags, as env{exclude=[...]} of atlas.hcl, or both: `schema inspect` shows every non-excluded table and no excluded "
+        "table / column / index, `schema diff` names no excluded object; `schema apply --auto-approve` on SQLite files: excluded tables' sqlite_master rows and rows identical before/after "
         "(python sqlite3 dump), not created when only declared in the file, not named by any printed statement except as REFERENCES parent; "
         "managed tables reach the desired model's PRAGMA facts with surviving columns' rows preserved; second apply = 'Schema is synced' and no change. "
         "`schema apply --env` with diff.skip{…}: each atomic change of a skipped kind is neither in the printed statements nor visible in the "
